@@ -1,0 +1,23 @@
+//go:build verif
+
+package db
+
+// Contracts for the hvc verifier (/verif). Comment-only.
+// The database methods do not change modelled Go memory; they are observable effects.
+
+//@ func (db *DB) ListenerRemove(Name string) (err error)
+//@   requires nonnil: db != nil
+//@ func (db *DB) ListenerAdd(Name string, Protocol string, Config string) (err error)
+//@   requires nonnil: db != nil
+//@ func (db *DB) LinkAdd(ParentAgentID int, LinkAgentID int) (err error)
+//@   requires nonnil: db != nil
+//@ func (db *DB) LinkRemove(ParentAgentID int, LinkAgentID int) (err error)
+//@   requires nonnil: db != nil
+//@ func (db *DB) AgentAdd(agent *agent.Agent) (err error)
+//@   requires nonnil: db != nil && agent != nil && agent.Info != nil
+//@ func (db *DB) AgentUpdate(agent *agent.Agent) (err error)
+//@   requires nonnil: db != nil && agent != nil && agent.Info != nil
+//@ func (db *DB) LinkExist(ParentAgentID int, LinkAgentID int) (r bool)
+//@   requires nonnil: db != nil
+//@ func (db *DB) ListenerExist(Name string) (r bool)
+//@   requires nonnil: db != nil
